@@ -263,6 +263,10 @@ func TestWorker(t *testing.T) {
 	shrinkBudget := time.Duration(envInt("VERIF_SHRINK_MS", 45000)) * time.Millisecond
 	hashMode := os.Getenv("VERIF_MODE") == "hash"
 	known := loadKnown(propID)
+	var borrow []string
+	if v := os.Getenv("VERIF_GEN_FROM"); v != "" && simrt.RaceBuild {
+		borrow = strings.Split(v, ",")
+	}
 	start := time.Now()
 	distinct := map[string]bool{}
 	for k := 0; k < maxRuns; k++ {
@@ -272,12 +276,27 @@ func TestWorker(t *testing.T) {
 		idx := out.Worker + k*nw
 		seed := runSeed(base, propID, idx)
 		g := &Gen{R: simrt.NewRand(seed)}
-		prog := prop.Gen(g, tier)
-		prog.Prop = propID
+		// Race slice only: the "without data races" clause is about the whole API,
+		// so part of the runs borrow the workloads of sibling properties (Close and
+		// re-request cycles, snapshots, ...). Only a race report counts in such a
+		// run; what the sibling's oracle says is that property's own business.
+		gp := prop
+		if len(borrow) > 0 {
+			if b := properties[borrow[idx%len(borrow)]]; b != nil {
+				gp = b
+			}
+		}
+		prog := gp.Gen(g, tier)
+		prog.Prop = gp.ID
 		ch := simrt.NewChooser(seed ^ 0x5bd1e995)
 		curRun = &runCtx{prop: propID, prog: prog, ch: ch, idx: idx, seed: seed, base: base, tier: tier}
-		res := RunOne(t, prop, prog, ch, hashMode)
+		res := RunOne(t, gp, prog, ch, hashMode)
 		curRun = nil
+		if gp != prop {
+			res.Violations = nil
+			res.Interest = res.Stats.Preemptions > 0
+			out.Probes["race_runs_on_borrowed_workloads"]++
+		}
 		if res.Infra != "" {
 			out.Infra = fmt.Sprintf("run %d (seed %d): %s", idx, seed, res.Infra)
 			return
@@ -431,8 +450,15 @@ func replayMain(t *testing.T, prop *Property, path string, out *WorkerOut) {
 	}
 	rch := simrt.NewReplay(rf.Tape)
 	curRun = &runCtx{prop: rf.Property, prog: rf.Program, ch: rch, idx: rf.RunIndex, seed: rf.RunSeed, base: rf.BaseSeed, tier: rf.Tier}
-	res := RunOne(t, prop, rf.Program, rch, true)
+	rp := prop
+	if b := properties[rf.Program.Prop]; rf.Race && b != nil {
+		rp = b // a race found on a borrowed workload: run it as what it is
+	}
+	res := RunOne(t, rp, rf.Program, rch, true)
 	curRun = nil
+	if rp != prop {
+		res.Violations = nil
+	}
 	if res.Infra != "" {
 		out.Infra = res.Infra
 		return
